@@ -86,7 +86,7 @@ func main() {
 		{"hit", 0, 0}, {"miss-nocache", 1, 1}, {"other-instance", 0, 2}, {"sticky", 3, 3},
 	}
 	maxAge := r.N(3, 6)
-	reps := r.N(1, 40)
+	reps := r.N(8, 60)
 	ids := []we.Identity{we.Anon, we.Auth("bearer", "alice"), we.Auth("", "anonymous"), we.Auth("jwt", "bob\x00x")}
 
 	var nForeign, nPanic, nRan, nAccepted, n4xx int64
@@ -165,7 +165,7 @@ func main() {
 								r.Class("pair:" + rel)
 								r.Class("cont:" + cname)
 								r.Class("config:" + cfg.name)
-								r.Case(fmt.Sprintf("%s>%s|%d|%s|%s|%s", A.Name, B.Name, age, cname, cfg.name, variant))
+								r.Case(fmt.Sprintf("%s>%s|%d|%s|%s|%s|%s|%d", A.Name, B.Name, age, cname, cfg.name, variant, id.Key(), arg))
 
 								var stateRan []string
 								for _, e := range obs.Events {
